@@ -457,10 +457,10 @@ end l14_Sim
 
 @[simp] theorem l14_createId_w (s : VSt) (w : List String) (n : String) : createId (l14_setW s w) n = createId s n := rfl
 @[simp] theorem l14_bottomModule_w (s : VSt) (w : List String) : bottomModule (l14_setW s w) = bottomModule s := rfl
-@[simp] theorem l14_findAlias_w (env : AEnv) (s : VSt) (w : List String) (n : String) :
-    findAlias env (l14_setW s w) n = findAlias env s n := rfl
-@[simp] theorem l14_findAlias_w' (env : AEnv) (b : Bool) (s : VSt) (n : String) :
-    findAlias (l14_envW env b) s n = findAlias env s n := rfl
+@[simp] theorem l14_findAlias_w (env : AEnv) (s : VSt) (w : List String) (n k : String) :
+    findAlias env (l14_setW s w) n k = findAlias env s n k := rfl
+@[simp] theorem l14_findAlias_w' (env : AEnv) (b : Bool) (s : VSt) (n k : String) :
+    findAlias (l14_envW env b) s n k = findAlias env s n k := rfl
 @[simp] theorem l14_isPublicV_w (s : VSt) (w : List String) (n q : String) :
     isPublicV (l14_setW s w) n q = isPublicV s n q := rfl
 @[simp] theorem l14_getReexportedBy_w (s : VSt) (w : List String) (q : String) :
